@@ -90,7 +90,7 @@ Definition loc_free (c : cfg) (l : list N) : bool :=
 Definition range_only (k : case) : bool :=
   let c := k_cfg k in
   loc_free c (fns k) && forallb (fun f => trig_empty (trig_of c f)) (fns k) && (threshold c =? 0)%N && negb (caller_filter c)
-  && plt_free c (fns k) && forallb (fun n => Z.of_nat (height n) <=? gdepth c) (k_forest k).
+  && negb (fmode_in c) && plt_free c (fns k) && forallb (fun n => Z.of_nat (height n) <=? gdepth c) (k_forest k).
 Definition in_window (c : cfg) (t : N) : bool :=
   ((range_start c =? 0) || (range_start c <=? t))%N && ((range_stop c =? 0) || (t <=? range_stop c))%N.
 Definition ok_range (k : case) : bool :=
@@ -292,7 +292,7 @@ Definition z_hides (k : zcase) : bool :=
 Definition mrange_only (k : mcase) : bool :=
   let c := mk_cfg k in
   loc_free c (mfns k) && forallb (fun f => trig_empty (trig_of c f)) (mfns k) && (threshold c =? 0)%N
-  && negb (caller_filter c) && plt_free c (mfns k)
+  && negb (caller_filter c) && negb (fmode_in c) && plt_free c (mfns k)
   && forallb (forallb (fun n => Z.of_nat (height n) <=? gdepth c)) (mk_forests k).
 Definition mok_range (k : mcase) : bool :=
   let c := mk_cfg k in
